@@ -367,3 +367,10 @@ end LA.Flags
 /-- Packages rule and rule/flags write package-level variables only in the five table builders, which nothing but `init`
 mentions (regenerated list, see LA.Proofs.StateFacts): Parse, Build and ToCommandLine are functions of their arguments. -/
 theorem C14_rule_packages_keep_nothing_between_calls : LA.StateFacts.ofPkg "rule" = LA.StateFacts.ruleTableBuilders ∧ LA.StateFacts.ofPkg "rule/flags" = [] := by decide
+
+/-- What the rule packages read of the process they run in is what the model is given as `Env`: the file type of a
+watched path (os.Stat) and the user and group databases; package flags reads nothing (`envReads`, regenerated with
+go/types on every run: package-level functions of os, os/user, os/exec, net, runtime, math/rand, crypto/rand,
+time.Now / Since / Until, file-system functions of path/filepath, process queries of syscall). -/
+theorem C14_environment_is_stat_and_the_id_databases :
+    LA.StateFacts.envOf "rule" = LA.StateFacts.ruleEnv ∧ LA.StateFacts.envOf "rule/flags" = [] := by decide
